@@ -86,7 +86,7 @@ class Histories(Suite):
             out += list(G.exhaustive(ALPHA, 4, [1024], IDS))
             n = 300000 if budget == "thorough" else 60000
         rng = ctx.sub_rng("c01", budget)
-        alpha = ALPHA + ["Rj", "R0", "R0", "Rx", "Ed", "E0", "F", "Gp", "Oe", "Ez"]
+        alpha = ALPHA + ["Rj", "R0", "R0", "Rx", "Ed", "E0", "F", "Gp", "Oe", "Ez", "X"]
         out += list(G.exhaustive(["R0", "N", "Q"], 2, [1024], IDS))
         for _ in range(n):
             out.append(G.seeded(rng, alpha, cancel_p=0.08))
